@@ -1,12 +1,15 @@
 --------------------------- MODULE Trace_ExprPrint ---------------------------
 (* Judges observations of the real parser and the real String methods, one record per line of
    obs.ndjson:
-     {id, mode, t, pred, src, T1, T2, subs, ...}
-   t    the model tree the source was printed from (k = "none" for corpus / random sources)
+     {id, mode, t, pred, src, lits, T1, T2, subs, ...}
+   t    the model tree the source was printed from (k = "none" for corpus / random sources); src its tokens,
+        a token "#n" standing for the literal whose source bytes are lits[n] (case space of MC_ExprLit)
    pred what the implementation-shaped String model predicted for t: [cls, pairs]
    T1   the real parser's tree of the source,  T2 = the real parser's tree of T1.String()
         (generic dumps without positions and without the count of redundant parentheses, which
-        String() deliberately does not reproduce: "ignoring positions" is read as covering it).
+        String() deliberately does not reproduce: "ignoring positions" is read as covering it).  Scalar
+        fields are strings (names, decimal constants) except the data fields Path / Value / Text, which are
+        byte sequences: T1 = T2 compares what a path or string literal denotes byte for byte.
    subs (second pass only, else <<>>) the same pair for every sub-expression node e of the parsed
         construct, in post-order, the construct itself last:  [T1 |-> dump of e, T2 |-> the real
         parser's tree of e.String(), kids |-> indices of the nearest sub-expressions below e].
